@@ -38,7 +38,9 @@ LEVEL_TEXT = ("Lean 4 theorems over R (Mathlib trig, Complex.arg as atan2) and Q
               "sexagesimal field ranges and value identity, printed seconds < 60 for the repaired formatter (and the F14 witness "
               "for the original), string-level round trip deg2gon(gon2deg g) within half a unit of the printed precision for every "
               "angle, precision and sign mode (digits <-> numbers proved, scanner model), latlong fields over R, dms2rad/rad2dms "
-              "round trip, bearing range/polar consistency/antisymmetry/symmetry; IsInteger, IsFloat and deg2gon accept exactly "
+              "round trip, bearing range/polar consistency/antisymmetry/symmetry; IsInteger (the CURRENT variant Literals.isIntegerCur, "
+              "selected by the flag regenerated from intfloat.h - a lone sign is refused; the pre-fix variant appears in HISTORY/NEG "
+              "theorems only), IsFloat and deg2gon accept exactly "
               "their documented regular languages (all strings; deg2gon with the int/double ranges), decided by a verified "
               "derivative matcher; two-pass Bowring latitude error: contraction per pass, explicit bound; the whole off-surface triple "
               "on every table ellipsoid for -10 km <= h <= 20000 km in one statement (latitude within 1e-5 m of arc, longitude exact, "
